@@ -116,6 +116,27 @@ def reps_for(A, form, op):
     return [(n, env_of(p0=val(A, a), p1=val(A, b)), expectation(A, form, op)) for n, a, b in pairs(A) if n not in skip]
 
 
+def div_rows(K, A, PROP=PROP):
+    """G rows of the whole division family for one ADT (shared with C04's panic-side clauses)"""
+    out = []
+    T = T_(A)
+    W_debug[0] = K.debug
+    for op in ("div", "rem", "div_euclid", "rem_euclid"):
+        out += core.g_row(K, PROP, inh(A, op), reps_for(A, "plain", op))
+        out += core.g_row(K, PROP, inh(A, "strict_" + op), reps_for(A, "plain", op))
+        out += core.g_row(K, PROP, inh(A, "checked_" + op), reps_for(A, "checked", op))
+        out += core.g_row(K, PROP, inh(A, "overflowing_" + op), reps_for(A, "overflowing", op))
+        out += core.g_row(K, PROP, inh(A, "wrapping_" + op), reps_for(A, "wrapping", op))
+    out += core.g_row(K, PROP, inh(A, "saturating_div"), reps_for(A, "saturating", "div"))
+    for op in ("div_floor", "div_ceil", "next_multiple_of"):
+        out += core.g_row(K, PROP, inh(A, op), reps_for(A, "plain", op))
+    out += core.g_row(K, PROP, inh(A, "checked_next_multiple_of"), reps_for(A, "checked", "next_multiple_of"))
+    # operators
+    out += core.g_row(K, PROP, tr(A, OPS + "Div", [T], "div"), reps_for(A, "plain", "div"))
+    out += core.g_row(K, PROP, tr(A, OPS + "Rem", [T], "rem"), reps_for(A, "plain", "rem"))
+    return out
+
+
 def obligations(ctx, tier):
     out = []
     configs = ["Kd", "Kr"] if tier == "quick" else ["Kd", "Kr", "Kd0", "Kr0"]
@@ -124,19 +145,7 @@ def obligations(ctx, tier):
         W_debug[0] = K.debug
         for A in ADTS:
             T = T_(A)
-            for op in ("div", "rem", "div_euclid", "rem_euclid"):
-                out += core.g_row(K, PROP, inh(A, op), reps_for(A, "plain", op))
-                out += core.g_row(K, PROP, inh(A, "strict_" + op), reps_for(A, "plain", op))
-                out += core.g_row(K, PROP, inh(A, "checked_" + op), reps_for(A, "checked", op))
-                out += core.g_row(K, PROP, inh(A, "overflowing_" + op), reps_for(A, "overflowing", op))
-                out += core.g_row(K, PROP, inh(A, "wrapping_" + op), reps_for(A, "wrapping", op))
-            out += core.g_row(K, PROP, inh(A, "saturating_div"), reps_for(A, "saturating", "div"))
-            for op in ("div_floor", "div_ceil", "next_multiple_of"):
-                out += core.g_row(K, PROP, inh(A, op), reps_for(A, "plain", op))
-            out += core.g_row(K, PROP, inh(A, "checked_next_multiple_of"), reps_for(A, "checked", "next_multiple_of"))
-            # operators
-            out += core.g_row(K, PROP, tr(A, OPS + "Div", [T], "div"), reps_for(A, "plain", "div"))
-            out += core.g_row(K, PROP, tr(A, OPS + "Rem", [T], "rem"), reps_for(A, "plain", "rem"))
+            out += div_rows(K, A)
             # P+: panic classes reachable in both build modes
             for fid in (tr(A, OPS + "Div", [T], "div"), tr(A, OPS + "Rem", [T], "rem"), inh(A, "div"), inh(A, "rem")):
                 out.append(core.p_plus(K, PROP, fid, "zero_divisor"))
